@@ -10,8 +10,8 @@ python3 - <<'PY'
 import sys
 sys.path.insert(0, '.')
 from simlib import build as B, driver
-from simlib.configs import CONFIGS
-for prop in ["C28"]:
+from simlib.allconfigs import CONFIGS
+for prop in sorted(CONFIGS):
     cfg = CONFIGS[prop]
     chk = cfg.get("driver", driver.Check)(cfg)
     with B.Build("setup-" + prop) as b:
